@@ -647,8 +647,80 @@ Definition ts_route_consts (sc : schema) (sv : service) (md : method) : list str
         end) ++
   [s "ctx"; s "result"].
 
-Definition ts_server_loads (sc : schema) (fl : file) : bool :=
+Definition ts_routes_ok (sc : schema) (fl : file) : bool :=
   forallb (fun sv => forallb (fun md => nodup_strb (ts_route_consts sc sv md)) (sv_methods sv)) (fl_services fl).
+
+(* ---- property names of the emitted interfaces: tscommon/types.go ------------------------------------
+   Both TS generators print the types of every message reachable from an RPC of the file (and of the
+   top-level messages named *Error): CollectServiceMessages:204-222, AddMessage:133-170.  Two annotation
+   TEXTS are printed as BARE property names:
+     the discriminator of a discriminated oneof      `{ <discriminator>: "<value>"; ... }`   (:395,:408,:419)
+     flatten_prefix ++ json name of each child field `  <prefix><jsonName>: <type>;`         (:563-577)
+   A text that is not an identifier name (`@type`, `kind-of`, `home.`, `2nd_`, one with a space) makes the
+   module a SyntaxError.  Bytes >= 128 (UTF-8 of non-ASCII characters) are taken as identifier characters:
+   exact for letters (é, 日本), not for non-ASCII symbols (‰, °), which the catalogue keeps away from here;
+   a backslash is taken as breaking (exact except for a well-formed \uXXXX escape). *)
+Definition ts_prop_char (c : ascii) : bool :=
+  is_ident_char c || Ascii.eqb c "$"%char || (128 <=? code c)%N.
+Definition ts_prop_ok (x : str) : bool :=
+  match x with
+  | [] => false
+  | c :: _ => negb (is_digit c) && forallb ts_prop_char x
+  end.
+
+Definition msg_targets (sc : schema) (n : str) : list str :=
+  match find_message (all_messages sc) n with
+  | Some m => flat_map (fun f => match f_kind f with KMessage t => [t] | _ => [] end) (m_fields m)
+  | None => []
+  end.
+(* worklist closure; every step either drops an already seen name or marks a new one and pushes its
+   targets, so [roots + fields + messages] steps are enough *)
+Fixpoint reach (fuel : nat) (sc : schema) (todo seen : list str) : list str :=
+  match fuel with
+  | O => seen
+  | S k =>
+      match todo with
+      | [] => seen
+      | n :: r => if mem_str n seen then reach k sc r seen else reach k sc (msg_targets sc n ++ r) (n :: seen)
+      end
+  end.
+Definition ts_roots (fl : file) : list str :=
+  flat_map (fun md => [md_in md; md_out md]) (flat_map sv_methods (fl_services fl)) ++
+  map m_name (filter (fun m => Nat.eqb (List.length (m_path m)) 1 && has_suffix (s "Error") (last (m_path m) [])) (fl_messages fl)).
+Definition reach_fuel (sc : schema) (fl : file) : nat :=
+  S (List.length (ts_roots fl) + List.length (all_messages sc) +
+     fold_right (fun m acc => List.length (m_fields m) + acc) 0 (all_messages sc)).
+Definition ts_messages (sc : schema) (fl : file) : list message :=
+  flat_map (fun n => match find_message (all_messages sc) n with Some m => [m] | None => [] end)
+           (reach (reach_fuel sc fl) sc (ts_roots fl) []).
+
+Definition flatten_prop_names (sc : schema) (f : field) : list str :=
+  match f_flatten f, f_flatten_prefix f with
+  | Some true, Some p =>
+      if str_eqb p [] then []
+      else match f_kind f with
+           | KMessage n => match find_message (all_messages sc) n with
+                           | Some c => map (fun cf => p ++ json_name (f_name cf)) (m_fields c)
+                           | None => []
+                           end
+           | _ => []
+           end
+  | _, _ => []
+  end.
+Definition in_disc_oneof (m : message) (f : field) : bool :=
+  match f_oneof f with
+  | Some n => existsb (fun o => o_has_cfg o && negb (str_eqb (o_discriminator o) []) && str_eqb (o_name o) n) (m_oneofs m)
+  | None => false
+  end.
+(* the annotation texts message [m] contributes as bare property names *)
+Definition ts_text_props (sc : schema) (m : message) : list str :=
+  map o_discriminator (filter (fun o => o_has_cfg o && negb (str_eqb (o_discriminator o) [])) (m_oneofs m)) ++
+  flat_map (fun f => if in_disc_oneof m f then [] else flatten_prop_names sc f) (m_fields m).
+Definition ts_types_ok (sc : schema) (fl : file) : bool :=
+  negb (match fl_services fl with [] => false | _ => true end) ||
+  forallb (fun m => forallb ts_prop_ok (ts_text_props sc m)) (ts_messages sc fl).
+
+Definition ts_server_loads (sc : schema) (fl : file) : bool := ts_routes_ok sc fl && ts_types_ok sc fl.
 (* the client declares path, params?, url, headers, resp, body once per method: tsclientgen/generator.go:300-405 *)
 Definition ts_client_consts (sc : schema) (md : method) : list str :=
   [s "path"] ++
@@ -674,7 +746,8 @@ Definition ts_ident_ok (x : str) : bool :=
 Definition ts_member_ok (md : method) : bool := negb (str_eqb (lower_first (md_go md)) (s "constructor")).
 Definition ts_client_loads (sc : schema) (fl : file) : bool :=
   forallb (fun md => nodup_strb (ts_client_consts sc md) && ts_member_ok md) (methods_of fl) &&
-  forallb (fun sv => forallb (fun h => ts_ident_ok (ts_header_prop (h_name h))) (all_headers sv)) (fl_services fl).
+  forallb (fun sv => forallb (fun h => ts_ident_ok (ts_header_prop (h_name h))) (all_headers sv)) (fl_services fl) &&
+  ts_types_ok sc fl.
 Definition ts_loads (sc : schema) : bool :=
   forallb (fun fl => ts_server_loads sc fl && ts_client_loads sc fl) (gen_files sc).
 
@@ -823,12 +896,13 @@ Definition go_tags (ps : subset) (sc : schema) : list str :=
   decl_tags ps sc ++
   flat_map (fun p => flat_map (file_tags p sc) (gen_files sc)) (subset_plugins ps).
 
-(* the TS server loads for every schema (proofs/EmitFacts.v ts_server_loads_always); the client has two
-   name-driven failures *)
+(* the route handlers of the TS server never redeclare a const (proofs/EmitFacts.v ts_routes_ok_always); the
+   client has two name-driven failures; both print annotation texts as bare property names *)
 Definition ts_tags (sc : schema) : list str :=
   tag_if (existsb (fun fl => existsb (fun md => negb (ts_member_ok md)) (methods_of fl)) (gen_files sc)) "ts-client-method-named-constructor" ++
   tag_if (existsb (fun fl => existsb (fun sv => existsb (fun h => negb (ts_ident_ok (ts_header_prop (h_name h)))) (all_headers sv)) (fl_services fl)) (gen_files sc))
-         "ts-client-header-property-not-identifier".
+         "ts-client-header-property-not-identifier" ++
+  tag_if (existsb (fun fl => negb (ts_types_ok sc fl)) (gen_files sc)) "ts-property-name-not-identifier".
 
 Fixpoint dedup (l : list str) : list str :=
   match l with [] => [] | x :: r => if mem_str x r then dedup r else x :: dedup r end.
